@@ -188,7 +188,7 @@ package resolve
 //@   ghost var g_benign bool = false
 //@   ghost var g_dataNull bool = false
 //@   at call astjson.ValueIsNull: ghost g_dataNull = result
-//@   at call isEmptyEntityFetch: ghost g_benign = g_benign || (result && g_dataNull)
+//@   at call isEmptyEntityFetch: ghost g_benign = g_benign || (result && g_dataNull && !hasErrors)
 //@   at call result.emptyAliasIsBenign: ghost g_benign = g_benign || result
 //@   ensures {silent.success.only.if.merged.or.benign} result == nil ==> count(merged) > old(count(merged)) || count(dataSet) > old(count(dataSet)) || count(errorRendered) > old(count(errorRendered)) || count(errorsMerged) > old(count(errorsMerged)) || g_benign || skipped || suppress || (res.batchStats != nil && g_batchLen == len(res.batchStats))
 //@   let authRej = res.authorizationRejected
